@@ -25,6 +25,14 @@ def base_point(sp, rng, tags, scale=1.0):
     return functab.rand_el(sp, rng, scale)
 
 
+def extreme_el(sp, rng, scale):
+    """All entries +-scale (exactly representable magnitudes down to the smallest denormal); same signs in every part so
+    that inner products of two such elements do not cancel."""
+    if util.is_pspace(sp):
+        return sp.element([extreme_el(s, rng, scale) for s in sp])
+    return sp.element(np.full(sp.shape, scale))
+
+
 def extra_functionals(sp, rng):
     """Derived rules beyond functab: conjugates of scalings / perturbations, infimal convolution via its conjugate."""
     g = lambda: functab.rand_el(sp, rng)
@@ -102,6 +110,29 @@ def check(ctx, fname, sname, sp, f, tags, rng):
                     if gap > 1e-9 * max(1, abs(fx), abs(fy), abs(x.inner(y))):
                         ctx.violation(comp, cfg, 'conjugate-inconsistent', symptom='fenchel-young-violated', gap=float(gap), fx=float(fx), fy=float(fy))
                         break
+            # extreme magnitudes: tiny-but-non-zero points against huge slopes and vice versa (products of the form
+            # 1e-200 * 1e250 are ordinary numbers; a zero test through a squared quantity underflows, a value computed
+            # through a square overflows).  Only pairs where both values come out finite are decided.
+            if not any(t in tags for t in ('kl', 'klcc', 'exp', 'composed')):
+                for sx, sy in ((1e-200, 1e250), (5e-324, 1e300), (1e250, 1e-200), (1e-170, 1e175)):
+                    # floating-point exception flags as sanitizer: an evaluation that overflows or produces an invalid
+                    # operation (inf - inf, 0 * inf) has left the float64 range of its own formula - a range limit, not
+                    # the property; such pairs are counted, not decided.  Underflow is silent and stays decided.
+                    try:
+                        with np.errstate(over='raise', invalid='raise', divide='ignore', under='ignore'):
+                            x = extreme_el(sp, rng, sx)
+                            y = extreme_el(sp, rng, sy)
+                            fx, fy, ip = f(x), fc(y), x.inner(y)
+                    except FloatingPointError:
+                        ctx.note_add('extreme_pairs_outside_float_range')
+                        continue
+                    if np.isfinite(fx) and np.isfinite(fy) and np.isfinite(ip):
+                        n += 1
+                        gap = ip - fx - fy
+                        if gap > 1e-9 * max(1, abs(fx), abs(fy), abs(ip)):
+                            ctx.violation(comp, cfg, 'conjugate-inconsistent', symptom='fenchel-young-violated', gap=float(gap), fx=float(fx), fy=float(fy),
+                                          scales=[sx, sy])
+                            break
             ctx.ev('fenchel-young', n)
         except (NotImplementedError, odl.OpNotImplementedError):
             ctx.skip('conjugate has no values')
@@ -111,6 +142,8 @@ def check(ctx, fname, sname, sp, f, tags, rng):
     # equality at the gradient
     if not novalue and 'c1' not in tags or (not novalue and 'c1' in tags):
         try:
+            if 'nograd' in tags:
+                raise NotImplementedError
             grad = f.gradient
             n = 0
             for rep in range(ctx.reps(5, 20)):
